@@ -270,6 +270,7 @@ def in_other_process(fs, fn):
             state = None
             if not is_local(fs):
                 state = {'files': fs.files, 'dirs': fs.dirs,
+                         'mtimes': fs.mtimes,
                          'log': fs.log[n0:], 'seq': fs.seq,
                          'hits': fs.hits, 'fired': fs.fired,
                          'op_calls': fs.op_calls, 'reads': fs.reads}
@@ -291,6 +292,7 @@ def in_other_process(fs, fn):
     if state is not None:
         fs.files = {p: bytearray(b) for p, b in state['files'].items()}
         fs.dirs = set(state['dirs'])
+        fs.mtimes = dict(state['mtimes'])
         fs.log.extend(state['log'])
         for k in ('seq', 'hits', 'fired', 'op_calls', 'reads'):
             setattr(fs, k, state[k])
